@@ -1282,7 +1282,8 @@ class CompilerPassGatherCode(CompilerPass):
 
         num_lines = len(s.splitlines())
         num_registers = len(self.used_registers)
-        num_bytes = len(s) + num_lines - 1
+        # two-byte line ends: one extra byte per line break (none for an empty program)
+        num_bytes = len(s) + max(num_lines - 1, 0)
 
         self.data.result = {
             "code": s,
